@@ -1,5 +1,5 @@
 """C04 - acknowledged writes survive a crash; each write is all-or-nothing."""
-from xsvlib.facts import fmt, strip, place_path, agg_is
+from xsvlib.facts import fmt, strip, place_path, agg_is, walk
 from xsvlib import q
 from . import common as C
 from .store_shared import batch_bodies, partition_field, rule_no_direct_mutators
@@ -42,6 +42,20 @@ def r1(run):
             cons = "%s|commit" % b.def_
             if not ok_edges or not err_edges:
                 run.unrecognised(cons + "|result", "the result of Batch::commit is not branched on (error dropped?)", commit.sp)
+                continue
+            # durability carried by the batch itself: `keyspace.batch().durability(Some(PersistMode::SyncAll))` makes `commit`
+            # write, flush and fsync the journal before it returns Ok (fjall: Batch::durability) - the commit IS the sync point
+            dur = [y for y in walk(commit.arg(0)) if y[0] == "call" and y[1].fn == "fjall::batch::Batch::durability"]
+            if dur:
+                mode = strip(dur[0][2][1]) if len(dur[0][2]) > 1 else ("none",)
+                is_sync = mode[0] == "agg" and mode[1].get("variant") == "Some" and mode[2] and agg_is(strip(mode[2][0]), "PersistMode", "SyncAll")
+                run.ob(cons + "|persist-mode", is_sync, commit.sp,
+                       "the batch is committed with durability Some(PersistMode::SyncAll): %s" % fmt(mode), reason="weak-or-missing-persist")
+                n, bad = err_only_returns(b, err_edges)
+                run.ob(cons + "|sync-before-ack", is_sync and n >= 1 and not bad, commit.sp,
+                       "the commit fsyncs before it returns Ok, and its Err edge never reaches an Ok return", reason="ack-before-sync")
+                run.ob(cons + "|err-propagated", n >= 1 and not bad, commit.sp,
+                       "commit's Err edge reaches only Err returns (%d return defs; offending: %s)" % (n, bad), reason="commit-error-dropped")
                 continue
             persists = [p for p in q.live_calls(b, C.KEYSPACE_PERSIST)]
             sync = [p for p in persists if agg_is(strip(p.arg(1)), "PersistMode", "SyncAll")]
@@ -95,6 +109,11 @@ def r2(run):
         mk = info["make"][0]
         bl = mk.dest["l"] if not mk.dest["p"] else None
         same = q.move_aliases(b, bl) if bl is not None else set()
+        for _ in range(3):
+            # builder-style options consume the batch and hand it back: `keyspace.batch().durability(..)` is still that batch
+            for dc in q.live_calls(b, "fjall::batch::Batch::durability"):
+                if q.root_local(b, dc.args[0]) in same and not dc.dest["p"]:
+                    same |= q.move_aliases(b, dc.dest["l"])
         for c in info["ops"] + info["commits"]:
             rl = q.root_local(b, c.args[0])
             if rl in same:
